@@ -391,6 +391,7 @@ func (r *HarnessResult) merge(p *HarnessResult) {
 	r.SolverTime += p.SolverTime
 	r.FpOps += p.FpOps
 	r.Blocked += p.Blocked
+	r.UnwindCuts += p.UnwindCuts
 	r.ConcCombos += p.ConcCombos
 	r.Events += p.Events
 	r.Candidates = append(r.Candidates, p.Candidates...)
